@@ -89,6 +89,8 @@ theorem fa_normalize_spec (input : List (BitVec 8)) (h : input.length < 2 ^ 60) 
   wp_go
   all_goals bv_len
 
+-- 45 switch arms, four bounds checks each: more elaboration work than the default budget, nothing slow in itself
+set_option maxHeartbeats 1600000 in
 theorem hi_normalize_loop (B : Nat) (hB : B < 2 ^ 62) :
     ∀ (fuel : Nat) (input : List (BitVec 8)) (runes : List (BitVec 32)) (i : BitVec 64),
       i.toNat ≤ runes.length → 2 * runes.length - i.toNat ≤ B → runes.length - i.toNat < fuel →
